@@ -142,7 +142,20 @@ class FunctionAnalyser(NodeVisitor):
         if not isinstance(node.value, AstNodeWithName):
             self.visit(node.value)
 
+        self.visit_slices_passed_over_by_name(node)
+
         self.update_results(Name(fullname, basename, token=node), node.ctx)
+
+    def visit_slices_passed_over_by_name(self, node: ast.expr) -> None:
+        """Visit the index or slice of every subscript in the given nameable.
+
+        The name `a[].b` of `a[i.j].b` stands for the whole chain, but the index is not
+        part of the name and must be visited for `i.j` to be seen.
+        """
+        while isinstance(node, AstNodeWithName) and not isinstance(node, ast.Name):
+            if isinstance(node, ast.Subscript):
+                self.visit(node.slice)
+            node = node.func if isinstance(node, ast.Call) else node.value
 
     def visit_Starred(self, node: ast.Starred) -> None:
         self.visit_compound_name(node)
@@ -184,6 +197,8 @@ class FunctionAnalyser(NodeVisitor):
 
         for arg in (*node.args, *node.keywords):
             self.visit(arg)
+
+        self.visit_slices_passed_over_by_name(node.func)
 
     def visit_call_to_target_with_custom_analyser(
         self,
